@@ -212,6 +212,7 @@ func doConcurrentBatchRun(session *hermes.HermesSession, workingDir string, star
 			case result := <-resultChannel:
 				activeRuns--
 				errorSummaryResult = errorSummary(result)
+				vevent("disp.recv", "id", result.LogID, "ok", result.Success, "active", activeRuns)
 			case log := <-logOutputChan:
 				if writeLogoutput {
 					fmt.Println(log)
@@ -227,6 +228,7 @@ func doConcurrentBatchRun(session *hermes.HermesSession, workingDir string, star
 			}
 			args := strings.Fields(line)
 			go session.Run(workingDir, args, logID, resultChannel, logOutputChan)
+			vevent("disp.launch", "i", i, "active", activeRuns)
 		}
 	}
 	// fetch output of last runs
@@ -235,6 +237,7 @@ func doConcurrentBatchRun(session *hermes.HermesSession, workingDir string, star
 		case result := <-resultChannel:
 			activeRuns--
 			errorSummaryResult = errorSummary(result)
+			vevent("disp.recv", "id", result.LogID, "ok", result.Success, "active", activeRuns)
 		case log := <-logOutputChan:
 			if writeLogoutput {
 				fmt.Println(log)
